@@ -116,19 +116,20 @@ static inline ELEM *c02_std_prev(ELEM *it, ptrdiff_t n) { return it - n; }
 size_t g_lex_m;
 static inline bool c02_std_lexicographical_compare(const ELEM *f1, const ELEM *l1, const ELEM *f2, const ELEM *l2)
 {
-    const ELEM *b1 = f1, *b2 = f2;
+    /* random access iterators: the loop `for (; f1 != l1 && f2 != l2; ++f1, ++f2)` in index form */
+    size_t n1 = (size_t)c02_ptr_diff(l1, f1), n2 = (size_t)c02_ptr_diff(l2, f2);
+    size_t n = n1 < n2 ? n1 : n2;
     g_lex_m = 0;
-    for (; f1 != l1 && f2 != l2; ++f1, ++f2)
-    __CPROVER_assigns(f1, f2, g_lex_m)
-    __CPROVER_loop_invariant(__CPROVER_same_object(f1, l1) && __CPROVER_same_object(f2, l2) && f1 <= l1 && f2 <= l2)
-    __CPROVER_loop_invariant(f1 - b1 == f2 - b2 && g_lex_m == (size_t)(f1 - b1))
-    __CPROVER_loop_invariant(!(g_k < g_lex_m) || ELEM_V(&b1[g_k]) == ELEM_V(&b2[g_k]))
-    __CPROVER_decreases(l1 - f1)
+    for (size_t i = 0; i < n; i++)
+    __CPROVER_assigns(i, g_lex_m)
+    __CPROVER_loop_invariant(i <= n && g_lex_m == i)
+    __CPROVER_loop_invariant(!(g_k < i) || ELEM_V(&f1[g_k]) == ELEM_V(&f2[g_k]))
+    __CPROVER_decreases(n - i)
     {
-        if (ELEM_value(f1) < ELEM_value(f2)) return true;
-        if (ELEM_value(f2) < ELEM_value(f1)) return false;
-        g_lex_m++;
+        if (ELEM_value(&f1[i]) < ELEM_value(&f2[i])) return true;
+        if (ELEM_value(&f2[i]) < ELEM_value(&f1[i])) return false;
+        g_lex_m = i + 1;
     }
-    return f1 == l1 && f2 != l2;
+    return n1 < n2;
 }
 #endif
